@@ -9,10 +9,10 @@ META = dict(
     property="C43",
     level="exploration",
     technique="complete enumeration of short texts x smallest limits + Hypothesis texts/limits; wire lines recorded per transport write and decoded with a reference CTCP low-level dequoter",
-    level_text="IRCClient.msg / IRCClient.notice are called with generated text and an explicit length limit (minimum+1 .. 512) on a client attached to a recording transport; every write must be one line: at most `limit` octets including CRLF, no CR/LF inside, correct 'PRIVMSG|NOTICE target :' prefix; the message parts, low-level-dequoted by a reference reader and concatenated, must equal the text with whitespace removed. lowDequote(lowQuote(s)) and ctcpDequote(ctcpQuote(s)) (and their composition) must return s. All texts of <=4 (thorough: <=5) characters over a 7-character alphabet (incl. CR) x the 3 smallest limits and all quoting inputs of <=4 characters over a 10-character alphabet are enumerated.",
+    level_text="IRCClient.msg / IRCClient.notice are called with generated text and an explicit length limit (minimum+1 .. 512) on a client attached to a recording transport; every write must be one line: at most `limit` octets including CRLF, no CR/LF inside, correct 'PRIVMSG|NOTICE target :' prefix; the message parts, low-level-dequoted by a reference reader and concatenated, must equal the text with whitespace removed. The same oracle is applied to a rate-limited client (lineRate set, irc.reactor replaced by a harness Clock): 1-4 messages separated by generated idle periods, judged per message at quiescence, lines in FIFO order (all schedules of 2-3 short messages with 0..5 ticks between them are enumerated). lowDequote(lowQuote(s)) and ctcpDequote(ctcpQuote(s)) (and their composition) must return s. All texts of <=4 (thorough: <=5) characters over a 7-character alphabet (incl. CR) x the 3 smallest limits and all quoting inputs of <=4 characters over a 10-character alphabet are enumerated.",
     level_note="'Whitespace' in the content oracle is every character with str.isspace() (the most lenient reading of 'non-whitespace characters'); the reference dequoter follows the CTCP specification's low-level quoting table and is trusted. length=None (the estimated safe maximum) is not exercised: the statement speaks about a given limit. Lone surrogates are outside the domain (not encodable).",
     design_ref="§5 C43",
-    rule="split case = {kind:'split', how:'msg'|'notice', user, text, limit}; non-trivial = the text needs more than one line, or contains a multi-byte / low-quoted character or a line break. quote case = {kind:'quote', s}; non-trivial = s contains a character either quoting level touches. Distinct by the whole case.",
+    rule="split case = {kind:'split', how:'msg'|'notice', user, text, limit}; non-trivial = the text needs more than one line, or contains a multi-byte / low-quoted character or a line break. queue case = {kind:'queue', rate, msgs:[{how, text, extra (limit = minimum+extra), idle (half ticks before sending)}]}; every queue case is non-trivial. quote case = {kind:'quote', s}; non-trivial = s contains a character either quoting level touches. Distinct by the whole case.",
 )
 
 M_QUOTE = "\x10"
@@ -59,6 +59,59 @@ class _Recorder:
 
     def getHost(self):
         return None
+
+
+def _judge(ctx, case, fmt, text, limit, writes, pre):
+    """The statement's per-message oracle over the wire lines `writes` of ONE
+    msg()/notice() call.  `pre` prefixes the signatures of the structural and
+    content verdicts; the over-limit signatures are shared (same causes)."""
+    # ---- each write is one well-formed line
+    parts = []
+    for n, w in enumerate(writes):
+        where = f"line {n} of {len(writes)}: {w[:120]!r}"
+        if not w.endswith(b"\r\n"):
+            ctx.violation(pre + "-line-terminator", case, where)
+        body = w[:-2]
+        if b"\r" in body or b"\n" in body:
+            ctx.violation(pre + "-line-contains-cr-or-lf", case, where)
+        try:
+            u = body.decode("utf-8")
+        except UnicodeDecodeError:
+            ctx.violation(pre + "-line-not-utf8", case, where)
+        if not u.startswith(fmt):
+            ctx.violation(pre + "-line-prefix", case, where + f" does not start with {fmt!r}")
+        parts.append(ref_low_dequote(u[len(fmt):]))
+    if any(c in p_ for p_ in parts for c in "\r\n"):
+        ctx.count("split: CR/LF of the text sent inside a line (quoted)")
+    # ---- content
+    if _nows("".join(parts)) != _nows(text):
+        ctx.violation(pre + "-content-lost-or-reordered", case,
+                      f"text {text[:200]!r} limit {limit}: parts {parts[:8]!r}")
+    # ---- limit, in octets, terminator included
+    for n, w in enumerate(writes):
+        if len(w) <= limit:
+            continue
+        n_oct = len(w)
+        n_chr = len(w.decode("utf-8"))
+        n_unq = len(fmt) + len(parts[n]) + 2
+        detail = (f"limit {limit}: line {n} is {n_oct} octets ({n_chr} characters, {n_unq} before low-level "
+                  f"quoting): {w[:100]!r}")
+        if n_unq > limit:
+            ctx.violation("split-line-over-limit:too-many-characters", case, detail)
+        if len(parts[n]) < 2:
+            # one single character that does not fit: nothing shorter could
+            # have been sent, the limit cannot be met for this text
+            ctx.count("split: limit unsatisfiable for a single character (not judged)")
+            continue
+        # CR and LF are whitespace for the splitter (break points / dropped), so
+        # they normally never reach low-level quoting; if the excess is exactly
+        # what quoted CR/LF add, that is a different cause than the two below
+        k_crlf = sum(1 for c in parts[n] if c in "\r\n")
+        if k_crlf and n_oct - k_crlf <= limit:
+            ctx.violation("split-line-over-limit:cr-lf-sent-quoted-and-not-counted", case, detail)
+        if n_oct > n_chr:
+            ctx.violation("split-line-over-limit:counts-characters-not-octets", case, detail)
+        ctx.violation("split-line-over-limit:low-quoting-expansion-not-counted", case, detail)
 
 
 def _run_split(ctx, case):
@@ -108,54 +161,81 @@ def _run_split(ctx, case):
         if any(len(g) == width and "\r" in g for g in text.split("\n")):
             ctx.count("split: exactly fitting segment contains CR")
 
-    # ---- each write is one well-formed line
-    parts = []
-    for n, w in enumerate(writes):
-        where = f"line {n} of {len(writes)}: {w[:120]!r}"
-        if not w.endswith(b"\r\n"):
-            ctx.violation("split-line-terminator", case, where)
-        body = w[:-2]
-        if b"\r" in body or b"\n" in body:
-            ctx.violation("split-line-contains-cr-or-lf", case, where)
-        try:
-            u = body.decode("utf-8")
-        except UnicodeDecodeError:
-            ctx.violation("split-line-not-utf8", case, where)
-        if not u.startswith(fmt):
-            ctx.violation("split-line-prefix", case, where + f" does not start with {fmt!r}")
-        parts.append(ref_low_dequote(u[len(fmt):]))
-    if any(c in p_ for p_ in parts for c in "\r\n"):
-        ctx.count("split: CR/LF of the text sent inside a line (quoted)")
-    # ---- content
-    if _nows("".join(parts)) != _nows(text):
-        ctx.violation("split-content-lost-or-reordered", case,
-                      f"text {text[:200]!r} limit {limit}: parts {parts[:8]!r}")
-    # ---- limit, in octets, terminator included
-    for n, w in enumerate(writes):
-        if len(w) <= limit:
-            continue
-        n_oct = len(w)
-        n_chr = len(w.decode("utf-8"))
-        n_unq = len(fmt) + len(parts[n]) + 2
-        detail = (f"limit {limit}: line {n} is {n_oct} octets ({n_chr} characters, {n_unq} before low-level "
-                  f"quoting): {w[:100]!r}")
-        if n_unq > limit:
-            ctx.violation("split-line-over-limit:too-many-characters", case, detail)
-        if len(parts[n]) < 2:
-            # one single character that does not fit: nothing shorter could
-            # have been sent, the limit cannot be met for this text
-            ctx.count("split: limit unsatisfiable for a single character (not judged)")
-            continue
-        # CR and LF are whitespace for the splitter (break points / dropped), so
-        # they normally never reach low-level quoting; if the excess is exactly
-        # what quoted CR/LF add, that is a different cause than the two below
-        k_crlf = sum(1 for c in parts[n] if c in "\r\n")
-        if k_crlf and n_oct - k_crlf <= limit:
-            ctx.violation("split-line-over-limit:cr-lf-sent-quoted-and-not-counted", case, detail)
-        if n_oct > n_chr:
-            ctx.violation("split-line-over-limit:counts-characters-not-octets", case, detail)
-        ctx.violation("split-line-over-limit:low-quoting-expansion-not-counted", case, detail)
+    _judge(ctx, case, fmt, text, limit, writes, "split")
     if nt and len(writes) > 1 and len(ctx.samples) < 4:
+        ctx.sample(case)
+
+
+def _run_queue(ctx, case):
+    """Rate-limited client (lineRate set): several messages separated by idle
+    periods on a harness-owned clock; at quiescence every message must have
+    arrived completely and in order."""
+    from twisted.internet import task
+    from twisted.words.protocols import irc
+    rate, msgs = case["rate"], case["msgs"]
+    assert rate > 0 and msgs
+    clock = task.Clock()
+    saved = irc.reactor
+    irc.reactor = clock
+    client = irc.IRCClient()
+    client.performLogin = 0
+    client.lineRate = rate
+    tr = _Recorder()
+    stamps = []
+    plain_write = tr.write
+
+    def stamped(data):
+        stamps.append(clock.seconds())
+        plain_write(data)
+    tr.write = stamped
+    fmts = []
+    try:
+        client.makeConnection(tr)
+        del tr.writes[:]
+        del stamps[:]
+        total = 0
+        for i, m in enumerate(msgs):
+            for _h in range(m["idle"]):
+                clock.advance(rate / 2.0)
+            cmd = "PRIVMSG" if m["how"] == "msg" else "NOTICE"
+            fmt = f"{cmd} #q{i} :"
+            fmts.append(fmt)
+            limit = len(fmt) + 2 + m["extra"]
+            if i and stamps:
+                if clock.seconds() - stamps[-1] >= rate:
+                    ctx.count("queue: message sent after the queue had drained and its timer gone idle")
+                else:
+                    ctx.count("queue: message sent while the drain timer was still armed")
+            getattr(client, m["how"])(f"#q{i}", m["text"], limit)
+            total += len(m["text"])
+        quiet = 0
+        for _t in range(total + 10):
+            n0 = len(tr.writes)
+            clock.advance(rate)
+            quiet = quiet + 1 if len(tr.writes) == n0 else 0
+            if quiet >= 3:
+                break
+    finally:
+        irc.reactor = saved
+        client.connectionLost(None)
+    ctx.nontrivial(case)
+    ctx.count("queue nontrivial")
+    ctx.count("queue: messages = %d" % len(msgs))
+    # attribute lines to messages by their prefix; FIFO order across messages
+    per = [[] for _m in msgs]
+    last = 0
+    for n, w in enumerate(tr.writes):
+        owner = [i for i, f in enumerate(fmts) if w.startswith(f.encode("ascii"))]
+        if not owner:
+            ctx.violation("queued-line-prefix", case, f"line {n}: {w[:80]!r}")
+        if owner[0] < last:
+            ctx.violation("queued-lines-out-of-order", case,
+                          f"line {n} belongs to message {owner[0]} after a line of message {last}")
+        last = owner[0]
+        per[owner[0]].append(w)
+    for i, m in enumerate(msgs):
+        _judge(ctx, case, fmts[i], m["text"], len(fmts[i]) + 2 + m["extra"], per[i], "queued")
+    if len(msgs) > 1 and len(ctx.samples) < 5:
         ctx.sample(case)
 
 
@@ -188,6 +268,8 @@ def _run_quote(ctx, case):
 def run_case(ctx, case):
     if case["kind"] == "split":
         _run_split(ctx, case)
+    elif case["kind"] == "queue":
+        _run_queue(ctx, case)
     else:
         _run_quote(ctx, case)
 
@@ -268,9 +350,35 @@ QCHAR = st.one_of(st.sampled_from(QUOTE_ALPHA + ["\\a", "\x10n", "\x10\x10", "\\
 QUOTE_CASES = st.lists(QCHAR, max_size=20).map(lambda cs: dict(kind="quote", s="".join(cs)))
 
 
+def _small_queue_cases():
+    """Every schedule of 2 or 3 one-/three-line messages with 0..5 ticks
+    (in half ticks) between them on a rate-limited client."""
+    idles = [0, 1, 2, 3, 4, 6, 8, 10]
+    texts = ["a", "a b c"]
+    for n in (2, 3):
+        for ts in itertools.product(texts, repeat=n):
+            for gaps in itertools.product(idles, repeat=n - 1):
+                yield dict(kind="queue", rate=1.0,
+                           msgs=[dict(how="msg" if k % 2 == 0 else "notice", text=t, extra=1,
+                                      idle=0 if k == 0 else gaps[k - 1]) for k, t in enumerate(ts)])
+
+
+QUEUE_TEXT = st.lists(st.one_of(ASCII_WORD, ASCII_WORD, st.sampled_from([" ", " ", "\n", "\t", "  "]),
+                                st.builds(lambda c, n: c * n, st.sampled_from(["x", "ab"]), st.integers(5, 40))),
+                      max_size=8).map("".join)
+QUEUE_CASES = st.builds(
+    lambda rate, msgs: dict(kind="queue", rate=rate, msgs=msgs),
+    st.sampled_from([0.5, 1.0, 2.5]),
+    st.lists(st.builds(lambda how, text, extra, idle: dict(how=how, text=text, extra=extra, idle=idle),
+                       st.sampled_from(["msg", "notice"]), QUEUE_TEXT,
+                       st.sampled_from([1, 2, 3, 5, 10, 40, 400]), st.integers(0, 12)),
+             min_size=1, max_size=4))
+
+
 def _hyp_shard(sub, i):
     hyp_run(sub, split_cases(), run_case, 8000, label=f"split-{i}")
     hyp_run(sub, QUOTE_CASES, run_case, 3000, label=f"quote-{i}")
+    hyp_run(sub, QUEUE_CASES, run_case, 3000, label=f"queue-{i}")
 
 
 def run(ctx):
@@ -281,6 +389,7 @@ def run(ctx):
         for first in SMALL_TEXT:
             _split_shard(ctx, (first, maxlen))
     enumerate_run(ctx, _small_quote_cases(), run_case, stop_after_violation=False)
+    enumerate_run(ctx, _small_queue_cases(), run_case, stop_after_violation=False)
     ctx.extra["exhaustive_small_scope"] = ("split: all texts of <=%d characters over %r x limits minimum+1..minimum+3; "
                                            "quote: all strings of <=4 characters over %r" % (maxlen, SMALL_TEXT, QUOTE_ALPHA))
     ctx.exhaustive = False
@@ -291,3 +400,4 @@ def run(ctx):
     else:
         hyp_run(ctx, split_cases(), run_case, 3000, label="split")
         hyp_run(ctx, QUOTE_CASES, run_case, 2000, label="quote")
+        hyp_run(ctx, QUEUE_CASES, run_case, 1000, label="queue")
